@@ -102,8 +102,16 @@ _public_ int m_mod_set_batch_size(m_mod_t *mod, size_t len) {
 _public_ int m_mod_set_batch_timeout(m_mod_t *mod, uint64_t timeout_ns) {
     M_MOD_ASSERT(mod);
 
-    // src_deregister and src_register already consume a token
+    /*
+     * The call as a whole is one (throttled) action: when the module is out of tokens
+     * it is refused before anything is touched, and the nested (de)registration
+     * of the internal timer is not throttled half way through.
+     */
+    M_MOD_CONSUME_TOKEN(mod);
+    const uint64_t tokens = mod->tb.tokens;
+    mod->tb.tokens = UINT64_MAX;
 
+    int ret = 0;
     /* If it was already set, remove old timer */
     if (mod->batch.timer.ns != 0) {
         deregister_internal_tmr(mod, &mod->batch.timer, &mod->batch);
@@ -112,7 +120,12 @@ _public_ int m_mod_set_batch_timeout(m_mod_t *mod, uint64_t timeout_ns) {
     mod->batch.timer.ns = timeout_ns;
     if (timeout_ns != 0) {
         /* If batching by size is disabled, only timed batching is effective: see push_evt() */
-        return m_mod_src_register_tmr(mod, &mod->batch.timer, M_SRC_INTERNAL | M_SRC_PRIO_HIGH, &mod->batch);
+        ret = m_mod_src_register_tmr(mod, &mod->batch.timer, M_SRC_INTERNAL | M_SRC_PRIO_HIGH, &mod->batch);
+        if (ret != 0) {
+            /* No timer: no timeout either (events would be held back with nothing to flush them) */
+            mod->batch.timer.ns = 0;
+        }
     }
-    return 0;
+    mod->tb.tokens = tokens;
+    return ret;
 }
